@@ -30,6 +30,18 @@ _schema = None
 _fc = None
 
 
+def _set_tz():
+    """Give the process a non-UTC local zone (POSIX TZ string, no tz database needed). The conforming
+    code never consults the local zone; code that lets a naive datetime reach `astimezone` does, and
+    is then observed to move the instant instead of passing by the accident of a UTC sandbox."""
+    import os
+    import time
+
+    if os.environ.get("TZ") != "VRF-05:30":
+        os.environ["TZ"] = "VRF-05:30"
+        time.tzset()
+
+
 def _validator():
     global _schema, _fc
     if _schema is None:
@@ -186,6 +198,9 @@ class C13(Prop):
         "binary64 model: normal range only (no overflow/subnormals), compared with the hardware on every run",
     ]
     ASSUMPTIONS = [
+        "a naive datetime and a string without offset are read as UTC (the 'tz default' of the anchored mechanism; "
+        "iso8601.parse_date's default_timezone for strings); the check runs with a non-UTC process-local zone so that "
+        "code consulting the local zone is observed",
         "UTC offsets are whole milliseconds (every ISO-8601 offset is whole minutes); with a sub-millisecond "
         "timezone(timedelta(microseconds=..)) the code floors in local time and the stored instant is not "
         "ms-aligned - observed, outside the quantifier, sent through the correspondence check only",
@@ -413,6 +428,7 @@ class C13(Prop):
         return out
 
     def gen(self, ctx):
+        _set_tz()
         out = []
         rng = ctx.rng("c13")
         # suite-like and hand-picked cases first
@@ -471,6 +487,7 @@ class C13(Prop):
         return iso_text(case)
 
     def impl(self, case):
+        _set_tz()
         k = case["k"]
         if k == "fl":
             return self._impl_fl(case)
@@ -480,8 +497,13 @@ class C13(Prop):
             us = case.get("us") or range(case["lo"], case["hi"])
             res = []
             for u in us:
-                e = Event(timestamp=mk_aware(case["base"] + case["off"] + u, case["off"]))
-                loc, off = dt_pair(e.timestamp)
+                try:
+                    e = Event(timestamp=mk_aware(case["base"] + case["off"] + u, case["off"]))
+                    ts = e.timestamp
+                except Exception as ex:  # the real code raised: an outcome, judged by the oracle
+                    res.append(["raised", ek(ex)])
+                    continue
+                loc, off = dt_pair(ts)
                 res.append(loc - off if off == 0 else ["not-utc", loc, off])
             return res
         import jsonschema
@@ -489,14 +511,17 @@ class C13(Prop):
         try:
             e = Event(id=case["id"], timestamp=self._ts_input(case), duration=dur_value(case["dur"]),
                       data=case["data"])
-        except (TypeError, OverflowError, ValueError) as ex:
+        except Exception as ex:  # the real code raised: an outcome, judged by the oracle
             return ["err", ek(ex)]
         ts = e.timestamp
         loc, off = dt_pair(ts)
         out = {"ev": ev4(e), "utc": ts.tzinfo is not None and off == 0,
                "types": [type(e["timestamp"]).__name__, type(e["duration"]).__name__, type(e["data"]).__name__]}
-        jd = e.to_json_dict()
-        text = e.to_json_str()
+        try:
+            jd = e.to_json_dict()
+            text = e.to_json_str()
+        except Exception as ex:
+            return ["err", "to_json:" + ek(ex)]
         loaded = json.loads(text)
         schema, fc = _validator()
         ok = True
@@ -518,7 +543,7 @@ class C13(Prop):
             try:
                 e2 = build()
                 out[name] = ["R", ev4(e2), bool(e2 == e) and bool(e == e2), e2.id == e.id and type(e2.id) is type(e.id)]
-            except (TypeError, OverflowError, ValueError) as ex:
+            except Exception as ex:
                 out[name] = ["E", ek(ex)]
         return out
 
